@@ -229,6 +229,7 @@ def run(tier):
     ck.rule("E11.operator-kernel", "operators whose form annihilates constants (all derivatives of the trial function) vanish identically when the trial function data is that of a constant (grad = ref_grad = hess = 0), i.e. they do not depend on phi.value", 45)
     ck.rule("E11.functional-integrand", "linear functionals of common_functionals.hpp: the normal form of Evaluator::set_point(tau) followed by eval(psi) equals the integrand stated in the class documentation for the scalar AND the vector-valued (blocked) instantiation: ForceFunctional f(x) psi, LaplaceFunctional -Laplace(f)(x) psi, component-wise for vector fields with the Hessian layout hess[component][d1][d2] of Analytic::EvalTraits (component index first, derivative indices after); every component of a vector value is assigned exactly on its extent. A swapped index role integrates -grad(div f) instead of -Laplace(f) for every field with mixed dependencies", 8)
     ck.rule("E1.functional-config", "test_config / trafo_config of a linear functional request every datum eval reads from psi and set_point reads from tau", 16)
+    ck.rule("E1.job-config-roles", "domain-assembler jobs of basic_assembly_jobs.hpp: the configuration constants a job forwards to its task base (the trafo / test / trial [single-space: merged space] template arguments of BasicMatrixAssemblyTaskCRTP1/2, BasicVectorAssemblyTaskCRTP, read off the RESOLVED instantiation) request, role by role, every datum the operator's / functional's configuration of the SAME role names: task test config >= Op::test_config, trial >= Op::trial_config, space >= test | trial, trafo >= Op::trafo_config; instantiated with operators whose test and trial configurations differ (TrialDerivativeOperator, TestDerivativeOperator), so that crossed roles are visible: the base task evaluates only what the forwarded tag names, eval() then reads never-computed data", 22)
     ck.rule("E1.accumulate-roles", "every assembly route accumulates eval(trial basis j, test basis i) (functionals: eval(test basis i)) into local entry (i,j) resp. (i): the phi argument is the data filled by the trial-space evaluator indexed by the column loop variable, psi the test-space data indexed by the row loop variable, the loops run to the respective evaluator's get_num_local_dofs(); swapped roles transpose every non-symmetric operator and break rectangular test/trial pairs", 13)
     ck.rule("E7.weight-once", "one accumulation step is exactly prev + eval * jac_det * cubature_weight(k) [* coefficient(j) for the matrix-free apply routes]: jac_det of the trafo data computed at cubature point k, the weight of the same point k of the same rule, each factor exactly once on every path into the accumulation", 13)
     ck.rule("E1.scatter-roles", "the local matrix/vector that was accumulated is scattered with (row mapping = test dof mapping, column mapping = trial dof mapping) prepared for the same cell; apply routes gather the coefficients with the trial mapping and scatter with the test mapping", 13)
@@ -259,6 +260,7 @@ def run(tier):
 
     check_operators(ck, facts, tier)
     check_functionals(ck, facts, tier)
+    check_job_configs(ck, facts, tier)
     check_routes(ck, facts, tier)
     check_scatter(ck, facts, tier)
     check_symbolic(ck, facts, tier)
@@ -656,6 +658,77 @@ def check_functionals(ck, facts, tier):
             have.add("jac_mat")
         miss = sorted(x for x in rd_tau if x in ttags and x not in have)
         ck.ob("E1.functional-config", inst + "/trafo_config", not miss, "set_point reads tau.%s which trafo_config (+jac_det) = %s does not provide" % (miss, sorted(have)) if miss else "trafo data read: %s" % sorted(rd_tau), fs.file, fs.line)
+
+
+# -------------------------------------------------------------------------------------------------
+# configuration constants forwarded by the assembly jobs keep their role
+# -------------------------------------------------------------------------------------------------
+
+def check_job_configs(ck, facts, tier):
+    rule = "E1.job-config-roles"
+    stags = tag_values(facts, "SpaceTags")
+    ttags = tag_values(facts, "TrafoTags")
+    if len(stags) < 6 or len(ttags) < 7:
+        ck.incomplete(rule, "SpaceTags/TrafoTags enumerators not found in the driver facts")
+        return
+
+    def decode(txt, table, enum):
+        txt = txt.strip()
+        m = re.match(r"^(?:\(FEAT::%s\))?(\d+)$" % enum, txt)
+        if m:
+            return int(m.group(1))
+        nm = txt.rsplit("::", 1)[-1]
+        if nm == "none":
+            return 0
+        return table.get(nm)
+    # configurations of the operators / functionals as the driver sees them (inst_operator / inst_functional)
+    cfgs = {}
+    for f in facts.functions:
+        m = re.match(r"^inst_(?:operator|functional)<(FEAT::Assembly::Common::.*), (\d)>$", f.full)
+        if m:
+            cfgs[m.group(1)] = config_values(f)
+    seen = set()
+    for f in sorted(facts.functions, key=lambda f: f.full):
+        m = re.match(r"^FEAT::Assembly::(BasicMatrixAssemblyTaskCRTP1|BasicMatrixAssemblyTaskCRTP2|BasicVectorAssemblyTaskCRTP)<FEAT::Assembly::(\w+Job\d?)<", f.cls or "")
+        if not m or f.tk == "pattern" or f.cls in seen:
+            continue
+        seen.add(f.cls)
+        base, job = m.group(1), m.group(2)
+        targs = split_targs(f.cls)
+        jargs = split_targs(targs[0].rsplit("::Task", 1)[0]) if targs else []
+        op = jargs[0] if jargs else None
+        cfg = cfgs.get(op)
+        if not cfg:
+            continue      # a job with configuration literals of its own (ForceFunctionalAssemblyJob) / operator not in the driver table
+        short = re.sub(r"FEAT::Assembly::Common::", "", op)
+        short = re.sub(r"<FEAT::Analytic::.*>$", "", short)
+        nroles = {"BasicMatrixAssemblyTaskCRTP2": 3, "BasicMatrixAssemblyTaskCRTP1": 2, "BasicVectorAssemblyTaskCRTP": 2}[base]
+        got = targs[-nroles:]
+        if len(got) != nroles:
+            ck.incomplete(rule, "%s<%s>: template arguments of %s not recognised" % (job, short, base))
+            continue
+        names = {"BasicMatrixAssemblyTaskCRTP2": ["trafo", "test", "trial"], "BasicMatrixAssemblyTaskCRTP1": ["trafo", "space"], "BasicVectorAssemblyTaskCRTP": ["trafo", "test"]}[base]
+        for role, txt in zip(names, got):
+            table, enum = (ttags, "TrafoTags") if role == "trafo" else (stags, "SpaceTags")
+            val = decode(txt, table, enum)
+            key = "%s<%s>/%s_config" % (job, short, role)
+            if val is None:
+                ck.incomplete(rule, "%s: template argument %s not decoded" % (key, txt))
+                continue
+            if role == "space":
+                want = cfg.get("test", (0,))[0] | cfg.get("trial", (0,))[0]
+            else:
+                if role not in cfg:
+                    ck.incomplete(rule, "%s: the driver has no %s_config of %s" % (key, role, short))
+                    continue
+                want = cfg[role][0]
+            show = lambda v: "|".join(k for k, b in sorted(table.items(), key=lambda kv: kv[1]) if b and v & b) or "none"
+            ok = (want & ~val) == 0
+            detail = "task base receives %s, %s::%s requests %s" % (show(val), short, "test_config|trial_config" if role == "space" else role + "_config", show(want))
+            if not ok:
+                crossed = [r2 for r2 in ("test", "trial") if r2 != role and r2 in cfg and cfg[r2][0] == val and role in ("test", "trial")]
+                detail += ": %s is not evaluated for the %s function although eval() reads it%s" % (show(want & ~val), role, (" (the forwarded value is the operator's %s_config: roles crossed)" % crossed[0]) if crossed else "")
+            ck.ob(rule, key, ok, detail, f.file, f.line)
 
 
 # -------------------------------------------------------------------------------------------------
